@@ -83,6 +83,12 @@ class Run:
                             timeout=timeout)
         self.last_go_output = out
         if (rc != 0 and not allow_fail) or not os.path.exists(outp):
+            # keep the whole output of a failed harness run (goroutine dumps are long)
+            keep = os.path.join(v.ROOT, "replays", "%s-harness-%s.log" % (self.prop, tag))
+            os.makedirs(os.path.dirname(keep), exist_ok=True)
+            with open(keep, "w") as f:
+                f.write(out)
+            v.log("harness failed: full output in " + keep)
             raise v.MachineryError("harness failed (rc=%s) %s %s:\n%s\n[...]\n%s" % (rc, pkgdir, runre, out[:3000], out[-3000:]))
         if "no tests to run" in out:
             raise v.MachineryError("harness test %s not found in %s" % (runre, pkgdir))
